@@ -66,6 +66,8 @@ PROPS = {
         'units': ['core_kernel', 'div_kernel', 'div_rounded', 'mul'],
         'title': 'mul_rounded, div_rounded and quantize round the exact result once, per mode',
         'design_ref': 'DESIGN.md section 7 (C04)',
+        'level': 'other',
+        'level_text': 'Same deductive machinery as the proof-level checks (Verus on contracts woven into the real code, F-run and D-run), but the property does NOT hold on this tree for one input class that cannot be repaired without editing the test suite: int.div_rounded(int, n) with n > 18 (known finding D4b, 27 failing obligations in the 9 int/int impls). Every other obligation is discharged for all inputs; a new failing obligation is reported as a violation.',
         'assumptions': [
             'R5: thread default rounding mode read once per call (uninterpreted function of the thread state)',
             'the 256-bit paths enter with their interface contracts (units/wide_iface.py); their bodies are the subject of C16',
